@@ -471,6 +471,101 @@ class Gen:
             rhs = term                      # last trip wins; a zero-trip loop leaves w alone
         return [["assign", w, None, rhs, [[c, ["num", lo], ["num", hi]]], self.s(rhs)]]
 
+    def op_stencil_pair(self, sc):
+        """Two looped element assignments with the same counter and bounds, one directly after the other; the
+        second reads elements the first writes in OTHER iterations (reversed / shifted index)."""
+        rng = self.rng
+        n = rng.choice([2, 3, 4])
+        a, b = rng.sample(ARR_NAMES, 2)
+        for v in (a, b):
+            sc.kill(v)
+        c = rng.choice(self.counters)
+        ops = [["call", [b], "<builtin>array", [["num", n]], {}, self.s()],
+               ["call", [a], "<builtin>array", [["num", n]], {}, self.s()]]
+        if rng.random() < 0.5:
+            ops.reverse()
+        k = ["num", rng.choice([1, 1.5, -0.5, 2])]
+        first = rng.choice([["+", ["var", c], k], ["*", k, ["+", ["var", c], ["num", 1]]]])
+        idx = rng.choice([["-", ["num", n - 1], ["var", c]], ["num", n - 1], ["num", 0]])
+        second = ["sub", ["var", a], idx]
+        if rng.random() < 0.5:
+            second = ["+", second, ["*", ["num", 0.5], ["var", c]]]
+        ops.append(["assign", a, ["var", c], first, [[c, ["num", 0], ["num", n]]], self.s(first)])
+        ops.append(["assign", b, ["var", c], second, [[c, ["num", 0], ["num", n]]], self.s(second)])
+        sc.arrs[a] = n
+        sc.arrs[b] = n
+        return ops
+
+    def op_flag_block(self, sc, persist):
+        """'if flag:' on a BARE variable whose block clears / re-assigns that very variable and goes on."""
+        rng = self.rng
+        flag = rng.choice(["flag", "ok", "startup"])
+        sc.kill(flag)
+        ops = [["assign", flag, None, ["cmp", rng.choice(["<", ">"]), self.num_expr(sc, 1), self.num_expr(sc, 1)],
+                [], self.s()]]
+        tgt = rng.choice(persist["nums"]) if persist and rng.random() < 0.7 else self.new_local(sc, LOCAL_NAMES)
+        if tgt in sc.arrs or tgt in sc.bools or tgt in sc.counters:
+            sc.kill(tgt)
+        then = [["assign", flag, None, ["cmp", "<", ["num", 1], ["num", 0]], [], 0]]
+        if rng.random() < 0.3:
+            then.insert(0, ["assign", tgt, None, ["+", self.num_leaf(sc), ["num", 10]], [], self.s()])
+        then.append(["assign", tgt, None, ["+", self.num_leaf(sc), ["num", 100]], [], self.s()])
+        if rng.random() < 0.5:
+            then.append(self.op_yield(sc))
+        els = None
+        if rng.random() < 0.6:
+            els = [["assign", tgt, None, ["+", self.num_leaf(sc), ["num", 1]], [], self.s()]]
+            if rng.random() < 0.3:
+                els.insert(0, ["assign", flag, None, ["cmp", "<", ["num", 0], ["num", 1]], [], 0])
+        self.ban_like("<cond>")
+        ops.append(["if", ["var", flag], then, [], els, 0])
+        if tgt not in sc.nums:
+            if els is not None:
+                sc.nums.append(tgt)
+        if tgt in sc.ints:
+            sc.ints.remove(tgt)
+        sc.bools.append(flag)
+        return ops
+
+    def op_computed_index(self, sc):
+        """A subscript whose index is an ordinary (non-loop) variable that is assigned before and re-assigned
+        after the read: 'idx <- 1; x <- a[idx]; idx <- 0'."""
+        rng = self.rng
+        if not sc.arrs:
+            return None
+        a = rng.choice(sorted(sc.arrs))
+        n = sc.arrs[a]
+        idx = rng.choice(["n", "m", "k0"])
+        sc.kill(idx)
+        i1, i2 = rng.randrange(n), rng.randrange(n)
+        x = self.new_local(sc, LOCAL_NAMES)
+        if x in sc.arrs or x in sc.bools or x in sc.counters:
+            sc.kill(x)
+        ops = [["assign", idx, None, ["num", i1], [], self.s()]]
+        read = ["sub", ["var", a], ["var", idx]]
+        q = rng.random()
+        if q < 0.5:
+            ops.append(["assign", x, None, rng.choice([read, ["+", read, self.num_leaf(sc)]]), [], self.s()])
+            if x not in sc.nums:
+                sc.nums.append(x)
+        elif q < 0.75:
+            self.ban_like("<cond>")
+            body = [self.op_assign_num(sc.copy(), None)]
+            ops.append(["if", ["cmp", rng.choice(["<", ">"]), read, self.num_leaf(sc)], body, [], None, 0])
+        else:
+            f = self.func("scalar")
+            sp = self.funcs[f]
+            if sp.get("nres", 1) == 1:
+                c = self._mkcall(f, [read] + [self.num_leaf(sc) for _ in sp["args"][1:]])
+                ops.append(["call", [x], c[1], c[2], c[3], 0])
+            else:
+                ops.append(["assign", x, None, read, [], 0])
+            if x not in sc.nums:
+                sc.nums.append(x)
+        ops.append(["assign", idx, None, ["num", i2], [], self.s()])
+        sc.ints.append(idx)
+        return ops
+
     def op_elem_write(self, sc):
         rng = self.rng
         if not sc.arrs:
@@ -577,10 +672,14 @@ class Gen:
                 new = self.op_assign_arr(sc, persist)
             elif r < 0.57:
                 new = self.op_elem_loop(sc)
-            elif r < 0.59:
+            elif r < 0.58:
                 new = self.op_elem_write(sc)
-            elif r < 0.61:
+            elif r < 0.595:
                 new = self.op_scalar_loop(sc, persist)
+            elif r < 0.61:
+                q = rng.random()
+                new = (self.op_stencil_pair(sc) if q < 0.35 else
+                       self.op_flag_block(sc, persist) if q < 0.7 else self.op_computed_index(sc))
             elif r < 0.69:
                 new = [self.op_call_stmt(sc, persist)]
             elif r < 0.79:
